@@ -1338,6 +1338,46 @@ func TestVerifC19HostSpellings(t *testing.T) {
 					}
 				}
 			}
+			// request headers that NAME ANOTHER HOST: routing follows the request's Host
+			// only. Host = a live name / an unclaimed name; header value = a name owned
+			// by a different client.
+			var routable []string
+			for _, name := range names {
+				if l := tr.live[name]; len(l) == 1 && l[0].Active && !l[0].Expired && l[0].No >= 0 {
+					routable = append(routable, name)
+				}
+			}
+			if len(routable) >= 2 {
+				for i, name := range routable {
+					otherName := routable[(i+1)%len(routable)]
+					for _, hk := range []string{"X-Forwarded-Host", "Forwarded", "X-Original-Host", "X-Host", "X-Forwarded-Server", "X-HTTP-Host-Override", "X-Real-Host"} {
+						hv := otherName
+						switch {
+						case hk == "Forwarded":
+							hv = "for=203.0.113.5;host=" + otherName + ";proto=http"
+						case hk == "X-Forwarded-Host" && i%2 == 1:
+							hv = otherName + ", " + name
+						}
+						for _, host := range []string{name, name + ":80", "never-claimed." + c19Bases[0], ""} {
+							for ni := range w.nodes {
+								r := c19Exec(w, c19Op{K: "lookup", Host: host, Node: ni, ViaSrv: true, HdrK: hk, HdrV: hv}, nil)
+								run.Eval(1)
+								run.Count("lookups_with_foreign_host_header", 1)
+								if r.Routed {
+									run.Count("lookups_with_foreign_host_header_routed", 1)
+								}
+								run.Distinct(fmt.Sprintf("%s|hdr=%s|%v", kind, hk, r.Routed))
+								if class, exp := c19JudgeRoute(tr, r); class != "" {
+									run.Violation("C19:"+class+"|header="+hk, map[string]any{"class": class, "store": kind, "host": host, "header": hk, "header_value": hv, "lookup": r, "expected_owner": exp, "results": results})
+									if run.Violations() >= 20 {
+										x.stop = true
+									}
+								}
+							}
+						}
+					}
+				}
+			}
 			if wi == 0 {
 				run.Sample(map[string]any{"store": kind, "names": names})
 			}
@@ -1348,6 +1388,8 @@ func TestVerifC19HostSpellings(t *testing.T) {
 	run.Floor("lookups_routed", 300)
 	run.Floor("routed_class_port65535", 20)
 	run.Floor("lookups_of_nonrouting_names", 50)
+	run.Floor("lookups_with_foreign_host_header", 2000)
+	run.Floor("lookups_with_foreign_host_header_routed", 500)
 	// non-vacuity of the case-variant pairs on a tree that claims names verbatim; a tree
 	// that normalises at claim time shows case_variant_claims_refused instead
 	if run.Counter("case_variant_claims_refused") == 0 {
@@ -1398,7 +1440,9 @@ func TestVerifC19Faults(t *testing.T) {
 		{"claim-owned-name", []c19Op{c19Create(101, "app", b0)}, c19Create(102, "app", b0), true},
 		{"claim-owned-name-other-node", []c19Op{c19Create(101, "app", b0)}, c19Op{K: "create", C: 102, Sub: "app", Base: b0, Node: 1}, true},
 		{"claim-owned-paused-name", []c19Op{c19Create(101, "app", b0), {K: "update", C: 101, Ref: 0, Upd: "inactive"}}, c19Create(102, "app", b0), true},
-		{"owner-delete", []c19Op{c19Create(101, "app", b0), c19Create(103, "api", b0)}, c19Delete(101, 0), false},
+		// the owner RETRIES its delete after the fault; once a delete returned success the
+		// name must be claimable again (no dangling index)
+		{"owner-delete", []c19Op{c19Create(101, "app", b0), c19Create(103, "api", b0)}, c19Delete(101, 0), true},
 		{"nonowner-delete", []c19Op{c19Create(101, "app", b0)}, c19Op{K: "delete", C: 102, Ref: 0, Node: 1}, true},
 		{"owner-update", []c19Op{c19Create(101, "app", b0)}, c19Op{K: "update", C: 101, Ref: 0, Upd: "future"}, false},
 		{"claim-after-delete", []c19Op{c19Create(101, "app", b0), c19Delete(101, 0)}, c19Create(102, "app", b0), true},
@@ -1436,6 +1480,13 @@ func TestVerifC19Faults(t *testing.T) {
 						break // the call makes fewer than pos+1 storage operations
 					}
 					fr := results[len(f.setup)]
+					if f.name == "owner-delete" && len(results) > len(f.setup)+1 {
+						if rr := results[len(f.setup)+1]; rr.Ran && rr.OK {
+							run.Count("owner_delete_retries_ok_after_fault", 1)
+						} else if rr.Ran {
+							run.Count("owner_delete_retries_refused_after_fault", 1)
+						}
+					}
 					run.Count("faults_fired", 1)
 					run.Count("faults_fired_"+f.name, 1)
 					outcome := "error"
@@ -1467,6 +1518,7 @@ func TestVerifC19Faults(t *testing.T) {
 	run.Floor("faults_fired", 100)
 	run.Floor("faulted_claims_of_owned_names_failed", 20)
 	run.Floor("faults_fired_owner-delete", 12)
+	run.Floor("owner_delete_retries_ok_after_fault", 4)
 	run.Floor("followup_claim_on_owned_name_refused", 100)
 	run.Exhaustive(true)
 }
